@@ -9,8 +9,8 @@ use std::time::Duration;
 pub fn def() -> CheckDef {
     CheckDef {
         id: "C12",
-        functions: &["strict::functor::{define_map_arrow,spider_map_arrow,to_operations,map_half_spider}", "strict::functor::identity::Identity", "FiniteFunction::injections", "strict::OpenHypergraph::{compose,tensor,spider,identity,tensor_operations}", "IndexedCoproduct::{map_semifinite,elements}", "Operations::new"],
-        bounds_quick: "diagrams W<=2, X<=1, S,T<=2, interfaces<=2 (whole box) x six functor families: identity (the crate's), doubling A->[A,A], erasing A->[], label-dependent lengths 0/1/2, composite image (two operations in sequence), spider-only image; preservation of ; (x) dagger id twist on pairs W<=1..2, X<=1 for identity and doubling",
+        functions: &["strict::functor::{define_map_arrow,spider_map_arrow,to_operations,map_half_spider}", "strict::functor::identity::Identity", "FiniteFunction::injections", "strict::OpenHypergraph::{compose,tensor,spider,identity,tensor_operations}", "IndexedCoproduct::{map_semifinite,elements}", "Operations::new", "lax::functor::dyn_functor::{define_map_arrow,DynFunctor::{map_object,map_operations,map_arrow},Identity}", "lax::OpenHypergraph::{to_strict,from_strict,tensor_assign}"],
+        bounds_quick: "lax half: lax diagrams with <=3 nodes, <=2 hyperedges, <=1 pending pair (<=6 node references; wirings enumerated, labels symbolic) x seven lax functor families (incl. images that carry pending unifications); strict core: diagrams W<=2, X<=1, S,T<=2, interfaces<=2 (whole box) x six functor families: identity (the crate's), doubling A->[A,A], erasing A->[], label-dependent lengths 0/1/2, composite image (two operations in sequence), spider-only image; preservation of ; (x) dagger id twist on pairs W<=1..2, X<=1 for identity and doubling",
         bounds_thorough: "W<=3, X<=2, S,T<=3",
         jobs,
         budget_s: (170, 3000),
@@ -210,5 +210,53 @@ pub fn jobs(tier: Tier, seed: u64) -> Vec<Job> {
     let mut rng = Rng::new(seed);
     let mut keyed: Vec<(usize, u64, Case)> = all.into_iter().map(|(c, k)| (c, rng.next(), k)).collect();
     keyed.sort_by_key(|(c, r, _)| (*c, *r));
-    keyed.into_iter().map(|(c, _, k)| case_job(k, cfg.clone(), per_job, c <= 6 && tier == Tier::Quick)).collect()
+    let mut strict: Vec<Job> = keyed.into_iter().map(|(c, _, k)| case_job(k, cfg.clone(), per_job, c <= 6 && tier == Tier::Quick)).collect();
+    // lax half: the lax Functor trait through dyn_functor (lax tier: wirings enumerated, labels symbolic)
+    let mut lax = lax_jobs(tier);
+    strict.reverse();
+    lax.reverse();
+    let mut out = vec![];
+    while !strict.is_empty() || !lax.is_empty() {
+        for _ in 0..3 {
+            if let Some(j) = strict.pop() {
+                out.push(j);
+            }
+        }
+        if let Some(j) = lax.pop() {
+            out.push(j);
+        }
+    }
+    out
+}
+
+fn oracle_lax(inp: &PV, out: &PV) -> T {
+    if out.is_panic() {
+        return tm::FALSE;
+    }
+    let f = inp.at(0).lax();
+    let fam = tm::as_const(inp.at(1).t()).unwrap();
+    let r = out.at(0).lax();
+    let want = substitute(super::c13::sem(fam), &strict_of_lax(f));
+    tm::and(vec![tm::bconst(r.quot.is_empty()), iso(&want, &plain_of_lax(r))])
+}
+pub fn lax_jobs(tier: Tier) -> Vec<Job> {
+    let per_job = Duration::from_secs(if tier == Tier::Quick { 90 } else { 1200 });
+    let cfg = base_cfg(tier);
+    let mut out = vec![];
+    for sh in super::c13::shapes_for(tier) {
+        for fam in [0u64, 1, 2, 3, 4, 5, 6] {
+            if fam == 3 && sh.refs() > 4 {
+                continue;
+            }
+            let sh2 = sh.clone();
+            let gen = move || {
+                let f = gen_lax(&sh2, "f");
+                crate::explore::assume(super::lax::consistent(&f));
+                PV::List(vec![PV::Lax(f), PV::T(tm::c(fam, 8))])
+            };
+            let j = case_job(crate::case!(format!("lax map_arrow via dyn_functor fam={} {}", fam, sh.show()), gen, c12_lax_map, oracle_lax, 2), cfg.clone(), per_job, tier == Tier::Quick && sh.refs() <= 4);
+            out.extend(split_by_choices(j, sh.n, if sh.refs() >= 6 { 1 } else { 0 }));
+        }
+    }
+    out
 }
